@@ -129,8 +129,20 @@ class _OldRewriter(ast.NodeTransformer):
         return self.generic_visit(n)
 
 
+class _LazyForms(ast.NodeTransformer):
+    """implies(a, b) and ite(c, a, b) are evaluated lazily, like the symbolic evaluation does: the consequent of an
+    implication whose antecedent is false is not evaluated (it may be undefined there)"""
+    def visit_Call(self, n):
+        n = self.generic_visit(n)
+        if isinstance(n.func, ast.Name) and n.func.id == 'implies' and len(n.args) == 2 and not n.keywords:
+            return ast.copy_location(ast.BoolOp(op=ast.Or(), values=[ast.UnaryOp(op=ast.Not(), operand=n.args[0]), n.args[1]]), n)
+        if isinstance(n.func, ast.Name) and n.func.id == 'ite' and len(n.args) == 3 and not n.keywords:
+            return ast.copy_location(ast.IfExp(test=n.args[0], body=n.args[1], orelse=n.args[2]), n)
+        return n
+
+
 def ev(expr, env):
-    e = ast.Expression(copy.deepcopy(expr))
+    e = ast.Expression(_LazyForms().visit(copy.deepcopy(expr)))
     ast.fix_missing_locations(e)
     return eval(compile(e, '<clause>', 'eval'), env)
 
